@@ -91,6 +91,9 @@ func c18Str(r *Rng, meta bool) string {
 var c18Nasty = []string{"\\", "a\\", "\"", "a\"b", "\\\"", "x\ny", "\\n", "a\\nb\\", "\\\\", "\"\\", "a\"><script>alert(1)</script>", "'", "}", "] }", "\xff\"", "\\l\""}
 
 func c18Name(r *Rng, meta bool) string {
+	if c18LongMode && r.P(1, 2) {
+		return c18LongStr(r, meta)
+	}
 	if meta && r.P(1, 4) {
 		s := PickS(r, c18Nasty)
 		if c18NoNL {
@@ -494,6 +497,7 @@ type c18ROpts struct {
 	gran                     string
 	title                    string
 	nodeCount                int
+	unit                     string // explicit -unit (coarse units make costs truncate to 0); "" = minimum
 }
 
 func c18Report(p *profile.Profile, format int, o c18ROpts) *report.Report {
@@ -510,7 +514,10 @@ func c18Report(p *profile.Profile, format int, o c18ROpts) *report.Report {
 		p.Aggregate(true, true, false, false, false, false)
 	}
 	numUnits, _ := p.NumLabelUnits()
-	ro := report.Options{OutputFormat: format, CallTree: o.callTree, DropNegative: o.dropNeg, OutputUnit: "minimum",
+	if o.unit == "" {
+		o.unit = "minimum"
+	}
+	ro := report.Options{OutputFormat: format, CallTree: o.callTree, DropNegative: o.dropNeg, OutputUnit: o.unit,
 		NumLabelUnits: numUnits, Title: o.title, NodeFraction: 0, EdgeFraction: 0, NodeCount: 0}
 	if o.trim {
 		ro.NodeCount = o.nodeCount
@@ -531,7 +538,7 @@ func runC18(c *Ctx) {
 	for _, s := range c18Nasty {
 		escCase("esc-fixed", s)
 	}
-	for i := 0; i < c.Budget(300, 5000); i++ {
+	for i := 0; i < c.Budget(300, 3000); i++ {
 		escCase("esc-random", c18Name(r, true)+c18Str(r, true))
 	}
 
@@ -550,13 +557,13 @@ func runC18(c *Ctx) {
 		g, a, cfg = c18Witness("f", "di\"r/fi\"le.go")
 		dotCase("fixed-F30", g, a, cfg)
 	}
-	for i := 0; i < c.Budget(450, 6000); i++ {
+	for i := 0; i < c.Budget(340, 4000); i++ {
 		meta := !r.P(1, 5)
 		g, a, cfg := c18SynthGraph(r, meta, !r.P(1, 3))
 		dotCase("dot-synth", g, a, cfg)
 	}
 	grans := []string{"functions", "lines", "files", "addresses", "filefunctions"}
-	for i := 0; i < c.Budget(350, 5000); i++ {
+	for i := 0; i < c.Budget(260, 3500); i++ {
 		po := c18POpts{meta: !r.P(1, 5), fileMeta: r.P(1, 3), unitMeta: r.P(1, 3), diff: r.P(1, 3)}
 		p := c18Profile(r, po)
 		ro := c18ROpts{callTree: r.P(1, 3), dropNeg: r.P(1, 4), trim: r.P(1, 3), gran: PickS(r, grans), nodeCount: 1 + r.Intn(3)}
@@ -584,7 +591,7 @@ func runC18(c *Ctx) {
 		p = c18CGWitness("callee", 0x3000, 0x3000, 0x1000)
 		c18CGCase(c, "finding-F11", p, c18ROpts{gran: "addresses"})
 	}
-	for i := 0; i < c.Budget(500, 6000); i++ {
+	for i := 0; i < c.Budget(420, 4000); i++ {
 		c18NoNL = !r.P(1, 12)
 		po := c18POpts{meta: !r.P(1, 5), fileMeta: r.P(1, 2), unitMeta: r.P(1, 6), diff: r.P(1, 5)}
 		p := c18Profile(r, po)
@@ -597,6 +604,8 @@ func runC18(c *Ctx) {
 		c18CGCase(c, "cg-report", p, ro, tags...)
 		c18NoNL = false
 	}
+
+	c18ExtCases(c, dotCase)
 
 	c18HTMLCases(c)
 }
